@@ -305,6 +305,36 @@ fn dump_doc(idx: &str, flags: &str, input: &str, opt: ParsingOptions, doc: &Docu
             if (node.pi().is_some()) != (t == NodeType::PI) {
                 nk += 1;
             }
+            // attributes: == is equality of (namespace, name, value); storage and string views agree; names compare as pairs
+            let attrs: Vec<_> = node.attributes().take(8).collect();
+            for (i, a) in attrs.iter().enumerate() {
+                if a.value_storage().as_str() != a.value() || a.value_storage() != &StringStorage::Borrowed(a.value()) {
+                    nk += 1;
+                }
+                for (j, b) in attrs.iter().enumerate() {
+                    let same = (a.namespace(), a.name(), a.value()) == (b.namespace(), b.name(), b.value());
+                    if (a == b) != same || (a != b) == same || (i == j && !same) {
+                        nk += 1;
+                    }
+                }
+                if node.attribute_node((a.namespace().unwrap_or(""), a.name())).is_none() && a.namespace().is_some() {
+                    nk += 1;
+                }
+            }
+            let tn = node.tag_name();
+            let rebuilt = match tn.namespace() {
+                Some(ns) => roxmltree::ExpandedName::from((ns, tn.name())),
+                None => roxmltree::ExpandedName::from(tn.name()),
+            };
+            if rebuilt != tn || (rebuilt.namespace(), rebuilt.name()) != (tn.namespace(), tn.name()) {
+                nk += 1;
+            }
+            for ns in node.namespaces().take(8) {
+                let again = node.namespaces().find(|m| m.name() == ns.name());
+                if again.map(|m| (m.uri() == ns.uri()) != (m == ns)).unwrap_or(true) {
+                    nk += 1;
+                }
+            }
         }
         writeln!(o, "{} NK {}", idx, nk).unwrap();
     }
